@@ -24,9 +24,11 @@ class BadDistribution(Exception):
 class ScriptedRandom:
     """Implements the RandomState surface Cirq uses (choice / random / randint)."""
 
-    def __init__(self, prefix=(), bulk_rng=None, default_last=False):
+    def __init__(self, prefix=(), bulk_rng=None, default_last=False, default_first=False):
         self.prefix = list(prefix)
-        self.default_last = default_last  # beyond the prefix take the LAST possible outcome (lets loops terminate)
+        # beyond the prefix: the most likely outcome, or (for loops that must terminate) always the last / first one
+        self.default_last = default_last
+        self.default_first = default_first
         self.log = []        # (kind, weights tuple | n, decision, nonzero alternatives)
         self.bad = []        # malformed distributions requested
         self.bulk_rng = bulk_rng
@@ -43,7 +45,8 @@ class ScriptedRandom:
             if d >= len(weights):
                 raise BadDistribution("scripted decision %d out of range for %r (non-deterministic replay)" % (d, weights))
         else:
-            d = alts[-1] if self.default_last else alts[0]
+            # beyond the prefix follow the most likely outcome (never a numerically-zero one)
+            d = alts[-1] if self.default_last else (alts[0] if self.default_first else max(alts, key=lambda j: weights[j]))
         self.log.append((kind, tuple(float(w) for w in weights), d, alts))
         return d
 
@@ -204,7 +207,7 @@ class ExploreResult:
         return sum(p for p, _, _ in self.paths)
 
 
-def explore(run, max_paths=4096, min_branch=1e-9, min_path=0.0, default_last=False):
+def explore(run, max_paths=4096, min_branch=1e-9, min_path=0.0, default_last=False, default_first=False):
     """run(rng) -> hashable outcome.  Enumerates every decision path of the real code.
 
     min_branch: alternatives of a single draw lighter than this are not forced;
@@ -216,7 +219,7 @@ def explore(run, max_paths=4096, min_branch=1e-9, min_path=0.0, default_last=Fal
             res.over_budget = True
             break
         prefix = stack.pop()
-        rng = ScriptedRandom(prefix, default_last=default_last)
+        rng = ScriptedRandom(prefix, default_last=default_last, default_first=default_first)
         try:
             outcome = run(rng)
         except UnscriptedDraw:
@@ -227,8 +230,7 @@ def explore(run, max_paths=4096, min_branch=1e-9, min_path=0.0, default_last=Fal
             if rng.path_probability() >= 1e-5:
                 raise
             res.dead += 1
-            res.paths.append((rng.path_probability(), ("dead-path",), rng.decisions()))
-            continue
+            outcome = ("dead-path",)
         res.bad.extend(rng.bad if rng.path_probability() >= 1e-5 else [])
         res.draws += len(rng.log)
         res.paths.append((rng.path_probability(), outcome, rng.decisions()))
